@@ -463,6 +463,11 @@ class Index(IndexBase):
                 labels = labels.astype(dtype_extract) #type: ignore
                 labels.flags.writeable = False #type: ignore
 
+        elif dtype is not None and labels.__class__ is not np.ndarray:
+            # the labels are what the dtype makes of them: convert before the mapping is built from them
+            labels, _ = iterable_to_array_1d(labels, dtype=dtype)
+            dtype_extract = labels.dtype # a flexible specifier (str) is now sized
+
         self._name = None if name is NAME_DEFAULT else name_filter(name)
 
         if self._map is None: # if _map not shared from another Index
